@@ -84,7 +84,16 @@ def check(run, prog, RULE="C01-n"):
                     lenlike = (r0.get("k") == "Call" and r0.get("fn") == "strlen") or any("STRLEN" in str(x.get("m") or "") for x in walk(r)) or any(x.get("k") == "Mem" and x.get("f") == "size" and any(y.get("k") == "Mem" and y.get("f") == "string" for y in walk(x)) for x in walk(r))
                     data = any(x.get("k") == "Mem" and x.get("f") == "string" for x in walk(r)) or any(x.get("k") == "Ref" and x.get("d") == "param" and "char" in (x.get("t") or "") for x in walk(r))
                     return lenlike and data
-                if srcs and len(srcs) == len(defs) + len(decl) and all(script_len(r) for r in srcs):
+                def positive_copy(d):
+                    # `V = W` executed only where W is known positive
+                    n2 = d[2]
+                    if n2.get("k") != "Asg" or n2.get("op") != "=":
+                        return False
+                    w = strip(n2["R"])
+                    return w.get("k") in ("Ref", "Mem") and positive_atoms(f, d[0].id, show(w), need) is not None
+                plain = [d for d in defs if not positive_copy(d)]
+                srcs = [d[2]["R"] for d in plain if d[2].get("k") == "Asg" and d[2].get("op") == "="] + [vv["init"] for vv in decl]
+                if srcs and len(srcs) == len(plain) + len(decl) and all(script_len(r) for r in srcs):
                     verdict = False
             run.saw(f)
             run.ob(RULE, "last:%s:%s:%s" % (rel(f.file), f.name, show(strip(n))[:48]), verdict,
